@@ -238,14 +238,14 @@ func (w *worker) open(op *rs.Op, forms []Form, redFor func(Form) []Tuple, st *st
 	st.funcs.Add(int64(s.bm.nfuncs) * 2)
 	st.modules.Add(2)
 	for e := 0; e < 2; e++ {
-		cm, err := w.rt[e].CompileModule(ctx, s.bm.bin)
+		cm, err := w.compile(e, s.bm.bin)
 		if err != nil {
-			rep(mismatch{Op: op.Name, Engine: engineNames[e], Form: "*", Got: "compile error: " + firstLine(err.Error()), Want: "valid module"}, Tuple{}, "compile")
+			rep(mismatch{Op: op.Name, Engine: engineNames[e], Form: "*", Got: errText("compile", err), Want: "valid module"}, Tuple{}, errClass("compile", err))
 			continue
 		}
-		mod, err := w.rt[e].InstantiateModule(ctx, cm, wazero.NewModuleConfig().WithName(""))
+		mod, err := w.instantiate(e, cm)
 		if err != nil {
-			rep(mismatch{Op: op.Name, Engine: engineNames[e], Form: "*", Got: "instantiate error: " + firstLine(err.Error()), Want: "instance"}, Tuple{}, "instantiate")
+			rep(mismatch{Op: op.Name, Engine: engineNames[e], Form: "*", Got: errText("instantiate", err), Want: "instance"}, Tuple{}, errClass("instantiate", err))
 			cm.Close(ctx)
 			continue
 		}
@@ -350,7 +350,6 @@ func (w *worker) runTask(tk *task, st *stats, rep reporter) {
 }
 
 func (w *worker) runForm(op *rs.Op, e int, form Form, fn api.Function, mem []byte, tuples []Tuple, exp []rs.Res, idx []uint32, rep reporter) {
-	ctx := context.Background()
 	report := func(i int, got string) {
 		t := tuples[i]
 		m := mismatch{Op: op.Name, Engine: engineNames[e], Form: string(form), Got: got, Want: wantString(op, exp[i])}
@@ -375,7 +374,7 @@ func (w *worker) runForm(op *rs.Op, e int, form Form, fn api.Function, mem []byt
 	}
 	single := func(i int) {
 		load(0, i)
-		_, err := fn.Call(ctx, 1)
+		_, err := call(fn, 1)
 		want := exp[i]
 		if err != nil {
 			tr, ok := trapOf(err)
@@ -404,7 +403,7 @@ func (w *worker) runForm(op *rs.Op, e int, form Form, fn api.Function, mem []byt
 		for s, i := range batch {
 			load(s, i)
 		}
-		_, err := fn.Call(ctx, uint64(len(batch)))
+		_, err := call(fn, uint64(len(batch)))
 		if err != nil {
 			// an unexpected trap somewhere in the batch: locate it tuple by tuple
 			for _, i := range batch {
